@@ -49,10 +49,11 @@ template <class V> vf::Csr<V> slice_rows(const vf::Csr<V> &A, ptrdiff_t b, ptrdi
 //---------------------------------------------------------------------------
 // Delay injection at the exchange points (amgcl::verif::point_hook).
 //---------------------------------------------------------------------------
-struct DelayState { uint64_t s = 1; long calls = 0, slept = 0; int prob4 = 1; int maxus = 80; };
+struct DelayState { uint64_t s = 1; long calls = 0, slept = 0; int prob4 = 1; int maxus = 80; long oneshot_us = 0; };   // oneshot_us: the next hook call sleeps that long, once
 inline DelayState &delay_state() { static DelayState d; return d; }
 inline void delay_hook(const char *, long) {
     DelayState &d = delay_state(); ++d.calls;
+    if (d.oneshot_us) { struct timespec t1; t1.tv_sec = d.oneshot_us / 1000000; t1.tv_nsec = 1000L * (d.oneshot_us % 1000000); d.oneshot_us = 0; nanosleep(&t1, nullptr); ++d.slept; return; }
     uint64_t z = vf::splitmix64(d.s);
     if ((int)((z >> 7) & 3) >= d.prob4) return;
     unsigned us = 1 + (unsigned)((z >> 16) % (unsigned)d.maxus);
